@@ -167,7 +167,7 @@ class Decoder:
         if root.ns != E57NS or root.name != "e57Root":
             self.bad("R4", "root element is {%s}%s" % (root.ns, root.name))
             return scene
-        scene["extensions"] = sorted((p, u) for p, u in decls.items() if p)
+        scene["extensions"] = sorted((p, u) for p, u in decls.items() if p and u != E57NS)
         self.check_types(root)
         self.decode_root(root, scene)
         # overlaps
